@@ -46,8 +46,9 @@ def jobs(tier):
                  checks="assert", unwind=9, unwindset=["vf_err_is.0:66"], timeout=600,
                  encodes=["bus_registry_acquire_service", "bus_registry_release_service", "_dbus_validate_bus_name"],
                  bounds="every name of 0..5 arbitrary bytes, RequestName and ReleaseName", shape="name-request route, short names"))
-    J.append(Job(name="e.request_name.limit255", group="C16.e", harness="harness/C16_acquire.c", defines={"MODE": 1}, real=SREAL, env=COMMON_ENV,
-                 checks="assert", unwind=262, timeout=3600, tiers=("thorough",),
-                 encodes=["bus_registry_acquire_service", "bus_registry_release_service", "_dbus_validate_bus_name"],
-                 bounds="well-formed names 'a.bbb...' of symbolic length 253..257 (maximum name length 255)", shape="name-request route, 255-byte limit"))
+    for ln in (254, 255, 256):
+        J.append(Job(name=f"e.request_name.len{ln}", group="C16.e", harness="harness/C16_acquire.c", defines={"MODE": 1, "LEN": ln}, real=SREAL, env=COMMON_ENV,
+                     checks="assert", unwind=262, timeout=600, min_witnesses=1,
+                     encodes=["bus_registry_acquire_service", "_dbus_validate_bus_name"],
+                     bounds=f"the well-formed name 'a.bbb...' of length {ln} (maximum name length 255) through RequestName", shape=f"name-request route, length {ln}"))
     return J
